@@ -1,0 +1,191 @@
+//go:build verif && !js
+
+package websocket
+
+// Exports for the verification harness in /verif (build tag "verif").
+// This file only adds code; nothing in the package refers to it.
+
+import (
+	"bufio"
+	"bytes"
+	"context"
+	"io"
+	"net/http"
+)
+
+// VerifMaskGo exposes maskGo.
+func VerifMaskGo(b []byte, key uint32) uint32 { return maskGo(b, key) }
+
+// VerifMask exposes mask (the function the connection code calls).
+func VerifMask(b []byte, key uint32) uint32 { return mask(b, key) }
+
+// VerifHeader mirrors header.
+type VerifHeader struct {
+	Fin, Rsv1, Rsv2, Rsv3 bool
+	Opcode                int
+	PayloadLength         int64
+	Masked                bool
+	MaskKey               uint32
+}
+
+func (h VerifHeader) internal() header {
+	return header{fin: h.Fin, rsv1: h.Rsv1, rsv2: h.Rsv2, rsv3: h.Rsv3, opcode: opcode(h.Opcode),
+		payloadLength: h.PayloadLength, masked: h.Masked, maskKey: h.MaskKey}
+}
+
+// VerifReadFrameHeader runs readFrameHeader on r.
+func VerifReadFrameHeader(r *bufio.Reader) (VerifHeader, error) {
+	h, err := readFrameHeader(r, make([]byte, 8))
+	return VerifHeader{h.fin, h.rsv1, h.rsv2, h.rsv3, int(h.opcode), h.payloadLength, h.masked, h.maskKey}, err
+}
+
+// VerifWriteFrameHeader runs writeFrameHeader and returns the bytes written.
+func VerifWriteFrameHeader(h VerifHeader) ([]byte, error) {
+	var buf bytes.Buffer
+	bw := bufio.NewWriter(&buf)
+	err := writeFrameHeader(h.internal(), bw, make([]byte, 8))
+	bw.Flush()
+	return buf.Bytes(), err
+}
+
+// VerifParseClosePayload exposes parseClosePayload.
+func VerifParseClosePayload(p []byte) (int, string, error) {
+	ce, err := parseClosePayload(p)
+	return int(ce.Code), ce.Reason, err
+}
+
+// VerifValidWireCloseCode exposes validWireCloseCode.
+func VerifValidWireCloseCode(code int) bool { return validWireCloseCode(StatusCode(code)) }
+
+// VerifCloseBytes exposes CloseError.bytes.
+func VerifCloseBytes(code int, reason string) ([]byte, error) {
+	return CloseError{Code: StatusCode(code), Reason: reason}.bytes()
+}
+
+// VerifCloseBytesErr exposes CloseError.bytesErr.
+func VerifCloseBytesErr(code int, reason string) ([]byte, error) {
+	return CloseError{Code: StatusCode(code), Reason: reason}.bytesErr()
+}
+
+// VerifCopts is an exported view of compressionOptions (Enabled=false means nil).
+type VerifCopts struct {
+	Enabled                 bool
+	ClientNoContextTakeover bool
+	ServerNoContextTakeover bool
+}
+
+func verifCopts(c *compressionOptions) VerifCopts {
+	if c == nil {
+		return VerifCopts{}
+	}
+	return VerifCopts{true, c.clientNoContextTakeover, c.serverNoContextTakeover}
+}
+
+func (v VerifCopts) internal() *compressionOptions {
+	if !v.Enabled {
+		return nil
+	}
+	return &compressionOptions{clientNoContextTakeover: v.ClientNoContextTakeover, serverNoContextTakeover: v.ServerNoContextTakeover}
+}
+
+// VerifNewConn puts a Conn on an arbitrary transport without an HTTP handshake.
+func VerifNewConn(rwc io.ReadWriteCloser, client bool, copts VerifCopts, threshold int) *Conn {
+	cfg := connConfig{rwc: rwc, client: client, copts: copts.internal(), flateThreshold: threshold}
+	if client {
+		cfg.br = getBufioReader(rwc)
+		cfg.bw = getBufioWriter(rwc)
+	} else {
+		cfg.br = bufio.NewReader(rwc)
+		cfg.bw = bufio.NewWriter(rwc)
+	}
+	return newConn(cfg)
+}
+
+// VerifConnState reports the negotiated compression options and threshold of a connection.
+func VerifConnState(c *Conn) (VerifCopts, int) { return verifCopts(c.copts), c.flateThreshold }
+
+// VerifModeOpts exposes CompressionMode.opts.
+func VerifModeOpts(m CompressionMode) VerifCopts { return verifCopts(m.opts()) }
+
+// VerifCoptsString exposes compressionOptions.String.
+func VerifCoptsString(c VerifCopts) string { return c.internal().String() }
+
+// VerifVerifyClientRequest exposes verifyClientRequest.
+func VerifVerifyClientRequest(w http.ResponseWriter, r *http.Request) (int, error) {
+	return verifyClientRequest(w, r)
+}
+
+// VerifAuthenticateOrigin exposes authenticateOrigin.
+func VerifAuthenticateOrigin(r *http.Request, patterns []string) error {
+	return authenticateOrigin(r, patterns)
+}
+
+// VerifSelectSubprotocol exposes selectSubprotocol.
+func VerifSelectSubprotocol(r *http.Request, subprotocols []string) string {
+	return selectSubprotocol(r, subprotocols)
+}
+
+// VerifSelectDeflate exposes selectDeflate(websocketExtensions(h), mode).
+func VerifSelectDeflate(h http.Header, mode CompressionMode) (VerifCopts, bool) {
+	c, ok := selectDeflate(websocketExtensions(h), mode)
+	return verifCopts(c), ok
+}
+
+// VerifVerifyServerExtensions exposes verifyServerExtensions.
+func VerifVerifyServerExtensions(copts VerifCopts, h http.Header) (VerifCopts, error) {
+	c, err := verifyServerExtensions(copts.internal(), h)
+	return verifCopts(c), err
+}
+
+// VerifVerifyServerResponse exposes verifyServerResponse.
+func VerifVerifyServerResponse(opts *DialOptions, copts VerifCopts, key string, resp *http.Response) (VerifCopts, error) {
+	c, err := verifyServerResponse(opts, copts.internal(), key, resp)
+	return verifCopts(c), err
+}
+
+// VerifVerifySubprotocol exposes verifySubprotocol.
+func VerifVerifySubprotocol(subprotos []string, resp *http.Response) error {
+	return verifySubprotocol(subprotos, resp)
+}
+
+// VerifHeaderTokens exposes headerTokens.
+func VerifHeaderTokens(h http.Header, key string) []string { return headerTokens(h, key) }
+
+// VerifSecWebSocketAccept exposes secWebSocketAccept.
+func VerifSecWebSocketAccept(key string) string { return secWebSocketAccept(key) }
+
+// VerifDial exposes dial with an entropy source for the handshake key.
+func VerifDial(ctx context.Context, u string, opts *DialOptions, rand io.Reader) (*Conn, *http.Response, error) {
+	return dial(ctx, u, opts, rand)
+}
+
+// VerifTrimWriter runs a trimLastFourBytesWriter over the given chunks and returns what
+// was passed on to the underlying writer (per call) and the withheld tail.
+func VerifTrimWriter(chunks [][]byte) (passed [][]byte, tail []byte) {
+	tw := &trimLastFourBytesWriter{w: writerFunc(func(p []byte) (int, error) {
+		passed = append(passed, append([]byte(nil), p...))
+		return len(p), nil
+	})}
+	for _, c := range chunks {
+		tw.Write(c)
+	}
+	return passed, append([]byte(nil), tw.tail...)
+}
+
+type writerFunc func(p []byte) (int, error)
+
+func (f writerFunc) Write(p []byte) (int, error) { return f(p) }
+
+// VerifSlidingWindow runs a slidingWindow of capacity n over the given writes and returns
+// the window contents after each write.
+func VerifSlidingWindow(n int, writes [][]byte) [][]byte {
+	var sw slidingWindow
+	sw.init(n)
+	var out [][]byte
+	for _, w := range writes {
+		sw.write(w)
+		out = append(out, append([]byte(nil), sw.buf...))
+	}
+	sw.close()
+	return out
+}
